@@ -147,6 +147,8 @@ package parser
 //@ func invalidValueError [C02]
 //@   ensures result0.Error.Err != nil && !result1
 
+//@ spec func validLN(s string) bool = pureCall("(github.com/prometheus/common/model.LabelName).IsValid", s)
+//@ spec func okLabel(kv *YamlKeyValue) bool = validLN(kv.Key.Value) && kv.Key.Value != "__name__" && pureCall("(github.com/prometheus/common/model.LabelValue).IsValid", kv.Value.Value)
 //@ func parseRule [C02]
 //@   results rule, isEmpty
 //@   ensures !isEmpty ==> wellFormed(rule)
@@ -158,6 +160,16 @@ package parser
 // C01 (rule level, from rulefmt.Rule.Validate): a recording rule the loader would refuse for its name is an error rule
 //@   ensures [C01] !isEmpty && rule.Error.Err == nil && rule.RecordingRule != nil ==> pureCall("github.com/prometheus/common/model.IsValidMetricName", rule.RecordingRule.Record.Value)
 //@   ensures [C01] !isEmpty && rule.Error.Err == nil && rule.RecordingRule != nil ==> !pureCall("strings.Contains", rule.RecordingRule.Record.Value, "{") && !pureCall("strings.Contains", rule.RecordingRule.Record.Value, "}")
+//@   ensures [C01] !isEmpty && rule.Error.Err == nil && rule.RecordingRule != nil && rule.RecordingRule.Labels != nil ==> (forall i int :: 0 <= i && i < len(rule.RecordingRule.Labels.Items) ==> okLabel(rule.RecordingRule.Labels.Items[i]))
+//@   ensures [C01] !isEmpty && rule.Error.Err == nil && rule.AlertingRule != nil && rule.AlertingRule.Labels != nil ==> (forall i int :: 0 <= i && i < len(rule.AlertingRule.Labels.Items) ==> okLabel(rule.AlertingRule.Labels.Items[i]))
+//@   ensures [C01] !isEmpty && rule.Error.Err == nil && rule.AlertingRule != nil && rule.AlertingRule.Annotations != nil ==> (forall i int :: 0 <= i && i < len(rule.AlertingRule.Annotations.Items) ==> validLN(rule.AlertingRule.Annotations.Items[i].Key.Value))
+//@   loop 7 invariant [C01] 0 <= iter7 && iter7 <= len(labelsPart.Items)
+//@   loop 7 invariant [C01] forall i int :: 0 <= i && i < iter7 ==> okLabel(labelsPart.Items[i])
+//@   loop 8 invariant [C01] 0 <= iter8 && iter8 <= len(annotationsPart.Items)
+//@   loop 8 invariant [C01] forall i int :: 0 <= i && i < iter8 ==> validLN(annotationsPart.Items[i].Key.Value)
+//@   loop 8 invariant [C01] labelsPart != nil ==> (forall i int :: 0 <= i && i < len(labelsPart.Items) ==> okLabel(labelsPart.Items[i]))
+// a recording rule carries no for / keep_firing_for / annotations
+//@   at return assert [C01] rule.Error.Err == nil && rule.RecordingRule != nil ==> forPart == nil && keepFiringForPart == nil && annotationsPart == nil
 // C06: every field node is built from the field's own YAML node, with the file's offsets and the column after the key
 //@   at call newYamlNode assert [C06] arg0 == part && arg1 == offsetLine && arg2 == offsetColumn && arg3 == contentLines && arg4 == key.Column + 2
 //@   at call newPromQLExpr assert [C06] arg0 == part && arg1 == offsetLine && arg2 == offsetColumn && arg3 == contentLines && arg4 == key.Column + 2
